@@ -5,16 +5,20 @@
     mep <rows> <cols> <bi> <bc> <gene>*                 -> pk <hex> <wf> <same>
           hex  = packTree (unfold genome best)   (the stream the theorems talk about)
           wf   = 1 iff the decidable well-formedness check `wfB` holds
-          same = 1 iff `pack` (as written in i_mep::pack) gives the same stream
+          same = 1 iff `i_mep::pack` AS TRANSLATED from the current sources (`GenPack.pack`, run by
+                 `PackSyn.runPack`) gives the same stream
     ga <n> <u32>*  /  de <n> <u64>*                     -> pk <hex>
     team <k> ; mep … ; mep …                            -> pk <hex>/<hex>/…
     murmur <hex>                                        -> <d0> <d1>     (Vita.Murmur.hash128)
+    murmursyn <hex>                                     -> <d0> <d1>     (hash128 AS TRANSLATED: `GenPack.murmur.run`)
+    combinesyn <a0> <a1> <h0> <h1>                      -> <d0> <d1>     (hash_t::combine AS TRANSLATED)
     combine <d0> <d1> …                                 -> <d0> <d1>     (fold of hash_t::combine from 0)
   anything else                                         -> bad-op
   <gene> = <opcode>:<parameter bits>:<arg>,<arg>… (`-` = none)
 -/
 import Vita.Common.Murmur
 import Vita.C03.Model
+import Vita.C03.GenPack
 
 open Vita.C03
 
@@ -69,7 +73,7 @@ def wfB (tab : SymTab) (g : Genome) (l : Locus) : Bool :=
     ge.args.length == tab.arity ge.op &&
     ge.args.all (fun a => decide (i < a) && decide (a < g.rows)) &&
     (tab ge.op).argCats.all (fun k => decide (k < g.cols)) &&
-    decide (ge.op < 65536) && decide (ge.par < 2 ^ 64)
+    decide (ge.op < 4294967296) && decide (ge.par < 2 ^ 64)
 
 def mepStream (tab : SymTab) (toks : List String) : Option (String × Bool × Bool) := do
   let (g, l) ← parseMep toks
@@ -79,7 +83,7 @@ def mepStream (tab : SymTab) (toks : List String) : Option (String × Bool × Bo
   | none => some ("?", wf, false)
   | some t =>
     let bs := packTree tab t
-    some (toHex bs, wf, pack tab g l == some bs)
+    some (toHex bs, wf, PackSyn.runPack GenPack.pack tab g l == some bs)
 
 def splitOnTok (sep : String) (toks : List String) : List (List String) :=
   let rec go (cur : List String) (acc : List (List String)) : List String → List (List String)
@@ -124,6 +128,15 @@ def answer (st : DState) (line : String) : DState × String :=
   | ["murmur", h] =>
     let r := Vita.Murmur.hash128 ((fromHex h).map UInt8.ofNat)
     (st, s!"{r.d0.toNat} {r.d1.toNat}")
+  | ["murmursyn", h] =>
+    let r := GenPack.murmur.run ((fromHex h).map UInt8.ofNat) GenPack.murmurDefaultSeed.toUInt64
+    (st, s!"{r.d0.toNat} {r.d1.toNat}")
+  | ["combinesyn", a0, a1, h0, h1] =>
+    match [a0, a1, h0, h1].mapM String.toNat? with
+    | some [a0, a1, h0, h1] =>
+      let r := USyn.runCombine GenPack.combine ⟨a0.toUInt64, a1.toUInt64⟩ ⟨h0.toUInt64, h1.toUInt64⟩
+      (st, s!"{r.d0.toNat} {r.d1.toNat}")
+    | _ => (st, "bad-op")
   | "combine" :: ws =>
     match ws.mapM String.toNat? with
     | some ns =>
